@@ -1,5 +1,6 @@
 (* C05 — malformed PELs are rejected cleanly: never a hang, never a decode from missing bytes. *)
 From Coq Require Import List NArith ZArith Bool Arith.
+From PV Require Gen.DataStreamGen Spec.PublishedDataStream.
 From PV Require Import Base.Bytes Base.Lit Base.Json Base.Reader Base.PelTypes Model.Parse Model.Render Model.Pel Model.Env
                        Spec.Encode Spec.Choice
                        Proofs.ExactFacts Proofs.ExactSrc Proofs.TruncFacts Proofs.ProgressFacts.
@@ -47,3 +48,15 @@ Example C05_example :
   (exists doc eid, decode env0 {| allow_plugins := false |} (fun _ => true) d = OkDoc eid doc) /\
   decode env0 {| allow_plugins := false |} (fun _ => true) (removelast d) = Reject.
 Proof. vm_compute. split; [eexists _, _; reflexivity|reflexivity]. Qed.
+
+(* SOURCE-TEXT tie of the primitives every decoder reads through.  harness/extract_datastream.py extracts the statements of
+   DataStream.check_range / inc_index / get_mem / get_int from pel/datastream.py on every run; they are the published ones, and
+   none of the three range-checking methods contains an `assert` statement (which `python -O` would remove): a count below one
+   and a read past the end raise in every interpreter mode, as the model's reader monad and the reader-language interpreter
+   assume. *)
+Theorem C05_source_primitives :
+  Gen.DataStreamGen.ok_datastream = true /\
+  Gen.DataStreamGen.ds_methods = Spec.PublishedDataStream.ds_methods /\
+  Gen.DataStreamGen.ds_asserts = [].
+Proof. repeat split; reflexivity. Qed.
+Print Assumptions C05_source_primitives.
